@@ -1,4 +1,6 @@
 import Varlink
+import Varlink.Extracted.Wire
+import Varlink.Extracted.Ctxio
 import Driver.Proto
 namespace Driver
 open Varlink
@@ -45,10 +47,49 @@ def cmdConn : P String := do
     return s!"DIFF C01 dispatch-log expected={expLog.length} observed={log.length} {feats}"
   return s!"OK {feats}"
 
+/-- which object the raw `Read` of ctxio.Conn uses, from the regenerated facts -/
+def extractedReadPath : ReadPath :=
+  if Varlink.Extracted.ctxioReadTarget.1 == "reader" then .buffered else .direct
+
+def ropP : P ROp := do
+  let t ← tok
+  match t.toList with
+  | ['f'] => pure .frame
+  | 'r' :: ds =>
+    match (String.ofList ds).toNat? with
+    | some n => pure (.raw n)
+    | none => throw s!"bad op {t}"
+  | _ => throw s!"bad op {t}"
+
+def isPrefixB : Bytes → Bytes → Bool
+  | [], _ => true
+  | _, [] => false
+  | a :: as, b :: bs => a == b && isPrefixB as bs
+
+/-- `ctxio <segments> <ops> | <outputs>` -/
+def cmdCtxio : P String := do
+  let segs ← listOf bytes
+  let ops ← listOf ropP
+  expect "|"
+  let outs ← listOf bytes
+  let stream := segs.flatten
+  let crossing := segs.length ≥ 2 || (splitOnNul stream).1.length ≥ 2
+  let hasRaw := ops.any (fun o => o != .frame)
+  let hasFrame := ops.any (fun o => o == .frame)
+  let feats := s!"nt={if crossing && ops.length ≥ 1 then 1 else 0} segs={segs.length} ops={ops.length} mix={if hasRaw && hasFrame then 1 else 0} path={if extractedReadPath == .buffered then "buffered" else "direct"}"
+  -- oracle (C18/C02): what the operations returned, concatenated, is a prefix of what the peer sent
+  if !isPrefixB outs.flatten stream then
+    return s!"DIFF C18 returned-bytes-are-not-a-prefix-of-the-stream(lost-or-reordered) {feats}"
+  let (exp, _, _) := runOps 4096 extractedReadPath ops {} segs
+  if exp != outs then
+    return s!"DIFF C18 model-mismatch {feats}"
+  return s!"OK {feats}"
+
 def runCmd : P String := do
   let c ← tok
   match c with
   | "conn" => cmdConn
+  | "ctxio" => cmdCtxio
   | _ => throw s!"unknown command {c}"
 
 end Driver
